@@ -7,5 +7,6 @@ mkdir -p tools/bin evidence replays
 for t in rewriter csfacts; do
   if [ -d tools/$t ]; then (cd tools/$t && go build -o ../bin/$t .); fi
 done
-(cd lean && lake build)
+# a module that fails here is reported by the check that needs it (each check builds its own modules)
+(cd lean && lake build) || echo "setup: lake build reported failures; the affected checks will report them"
 echo setup ok
